@@ -161,6 +161,38 @@ func H04e() {
 	}
 }
 
+// H04e_bearer: the family the short strings of H04e cannot reach: <pre> ++ scheme ++ <post> with scheme
+// one of bearer / BEARER / BeArEr, |pre| <= 1 and |post| <= postbytes arbitrary ASCII bytes (several
+// credentials, trailing garbage, missing separator, ...).
+func H04e_bearer() {
+	pre := vString(vLen(0, 1))
+	scheme := []string{"bearer", "BEARER", "BeArEr"}[vChoice(3)]
+	vTag("post")
+	post := vString(vLen(0, vParam("postbytes", 5)))
+	s := pre + scheme + post
+	for i := 0; i < len(s); i++ {
+		vAssume(s[i] < 0x80)
+	}
+	got := authenticationCredential(hCtxWithAuthorization(s))
+	want := hRefCredential(s)
+	vAssert(got == want, "H04e_bearer.ascii_exact: credential differs from '<ws>* bearer <ws>+ token <ws>*' reference")
+	if got != "" {
+		vCover("credential")
+	} else {
+		vCover("no-credential")
+	}
+}
+
+func H04e_bearer_twin() {
+	post := vString(5)
+	for i := 0; i < 5; i++ {
+		vAssume(post[i] < 0x80)
+	}
+	if authenticationCredential(hCtxWithAuthorization("bearer"+post)) == "ab" {
+		vAssert(false, "H04e_bearer_twin.reach: reachable")
+	}
+}
+
 func H04e_twin() {
 	s := vString(8)
 	for i := 0; i < 8; i++ {
